@@ -1218,10 +1218,19 @@ func (s *Server) subscriptionsListen(ctx context.Context, req *SubscriptionsList
 	}
 	s.mu.Unlock()
 	defer func() {
+		// Remove only what this listen registered and still owns: the session
+		// may hold other listens (one per resource subscription, besides the
+		// one opened at connect), whose registrations must outlive this one.
 		s.mu.Lock()
-		delete(s.toolChangeSubscriptions, req.Session)
-		delete(s.promptChangeSubscriptions, req.Session)
-		delete(s.resourceChangeSubscriptions, req.Session)
+		if allowed.ToolsListChanged && s.toolChangeSubscriptions[req.Session] == requestID {
+			delete(s.toolChangeSubscriptions, req.Session)
+		}
+		if allowed.PromptsListChanged && s.promptChangeSubscriptions[req.Session] == requestID {
+			delete(s.promptChangeSubscriptions, req.Session)
+		}
+		if allowed.ResourcesListChanged && s.resourceChangeSubscriptions[req.Session] == requestID {
+			delete(s.resourceChangeSubscriptions, req.Session)
+		}
 		s.mu.Unlock()
 	}()
 
